@@ -93,6 +93,17 @@ pub fn run(tier: &str) -> Result<Report, String> {
         parts.push(json!({"part": "unusual names", "network": b.name, "aeon": b.aeon, "formulae": fs.len()}));
         sem::sweep(&mut rep, &ctx, &fs, ck);
     }
+    // 1e. networks that are unusual as data (constants only, 4 variables, 256 parameter valuations, ...)
+    for b in edge_nets(3)? {
+        sem::note_network(&mut rep, &b);
+        let ctx = NetCtx::new(b.clone(), Labels::default(), "none");
+        let mut aa = Alphabet::all_ops(ctx.nprops(), 3);
+        aa.consts = vec![true, false];
+        let mut fs = Gen::new(aa).closed_up_to(if quick || b.cols.len() > 16 { 3 } else { 4 });
+        fs.extend(templates(&ctx.user, false, if quick { 2 } else { 8 }));
+        parts.push(json!({"part": "unusual networks", "network": b.name, "aeon": b.aeon, "colours": b.cols.len(), "formulae": fs.len()}));
+        sem::sweep(&mut rep, &ctx, &fs, Checks { semantic: true, unit: false, entries: Entries::PlainDirty });
+    }
     // 1c. deep quantifier nests (up to 10 nested quantifiers on the 1-variable networks, 6 on con2) on graphs
     //     with as many spare variable sets
     for (name, max) in [("neg1", 10usize), ("imp1", if quick { 8 } else { 10 }), ("con2", if quick { 5 } else { 6 })] {
@@ -219,7 +230,7 @@ pub fn run(tier: &str) -> Result<Report, String> {
     }
     parts.push(json!({"part": "operator slices", "nodes_exactly": m_slice, "slices": if quick { sl.len().div_ceil(7) } else { sl.len() }, "slice_names": sl.iter().map(|s| s.0.clone()).collect::<Vec<_>>(), "formulae": slice_total, "networks": slice_nets}));
     rep.set("parts", json!(parts));
-    rep.rule = "(1) all closed formulae with at most max_nodes nodes over the plain operator set, all closed formulae with at most max_nodes-1 nodes over all nine binary operators that use EW or AW, and the template families (benchmark formulae, two/three-variable quantifier nests with jumps, duplicated sub-formulae with swapped variable roles, one-free-variable sub-formulae with inner quantifiers duplicated at equal and different quantifier depths in both orders) on every core network through model_check_formula, _dirty, model_check_tree, _tree_dirty; (1a) all closed formulae with <= 3 (4) nodes over all operators + templates on four networks whose variable names are unusual as data (Ca_extra_cell / b_extra_1, x / xx, a / ab, EF1 / TRUE); (1c) deterministic deep quantifier nests (4..10 quantifiers on one branch on 1-variable networks, up to 6 on con2; graphs with as many spare variable sets); (1d) 13 hybrid formulae with closed forms on a frozen 32-variable network whose argument set has a BDD of ~2^17 nodes (large as data); (1b) every ordered pair of a pool of closed formulae as a two-element batch through model_check_multiple_formulae(_dirty), each position against the oracle; (2) all closed formulae with <= 3 (every 25th network: 4) nodes on every network of the de-duplicated family of ALL 2-variable networks of the grammar; (3) all closed formulae with exactly m nodes in every operator slice (each pair of operator groups x each quantifier, jump included). Every result is compared on every state x valid colour with the explicit-state oracle; distinct_nontrivial = number of distinct (network, verdict table) pairs that are neither empty nor full".into();
+    rep.rule = "(1) all closed formulae with at most max_nodes nodes over the plain operator set, all closed formulae with at most max_nodes-1 nodes over all nine binary operators that use EW or AW, and the template families (benchmark formulae, two/three-variable quantifier nests with jumps, duplicated sub-formulae with swapped variable roles, one-free-variable sub-formulae with inner quantifiers duplicated at equal and different quantifier depths in both orders) on every core network through model_check_formula, _dirty, model_check_tree, _tree_dirty; (1a) all closed formulae with <= 3 (4) nodes over all operators + templates on four networks whose variable names are unusual as data (Ca_extra_cell / b_extra_1, x / xx, a / ab, EF1 / TRUE); (1e) the same bound on five networks that are unusual as data (constants only, a constant feeding a toggle, 4 variables, an implicit function of 3 regulators, a sink); (1c) deterministic deep quantifier nests (4..10 quantifiers on one branch on 1-variable networks, up to 6 on con2; graphs with as many spare variable sets); (1d) 13 hybrid formulae with closed forms on a frozen 32-variable network whose argument set has a BDD of ~2^17 nodes (large as data); (1b) every ordered pair of a pool of closed formulae as a two-element batch through model_check_multiple_formulae(_dirty), each position against the oracle; (2) all closed formulae with <= 3 (every 25th network: 4) nodes on every network of the de-duplicated family of ALL 2-variable networks of the grammar; (3) all closed formulae with exactly m nodes in every operator slice (each pair of operator groups x each quantifier, jump included). Every result is compared on every state x valid colour with the explicit-state oracle; distinct_nontrivial = number of distinct (network, verdict table) pairs that are neither empty nor full".into();
     Ok(rep)
 }
 
